@@ -40,6 +40,10 @@ def sites():
                 if not infunc or s.startswith("//") or s.startswith("func ") or "Errorf(" in s or "panic(" in s or '"' in s and "==" not in s and "!=" not in s:
                     continue
                 code = line.split("//")[0]
+                # statement deletion: plain assignments, op-assignments, ++/--, and call statements
+                if re.match(r"^\s+[A-Za-z_][\w\.\[\]\*]*\s*(=|\+=|-=)\s*[^=].*$", code) or re.match(r"^\s+[A-Za-z_][\w\.]*(\+\+|--)\s*$", code) or re.match(r"^\s+[A-Za-z_][\w\.]*\(.*\)\s*$", code):
+                    if not code.strip().startswith(("return", "defer", "go ", "if ", "for ", "switch ")):
+                        out.append((rel, ln, 0, len(line), "", 99))
                 for oi, (pat, rep) in enumerate(OPS):
                     for m in re.finditer(pat, code):
                         out.append((rel, ln, m.start(), m.end(), rep, oi))
